@@ -51,6 +51,8 @@ func runC06(r *fw.Run, p *fw.Program) {
 	r.Notes["functions_reachable_from_decode_roots"] = len(reach)
 
 	c06Recover(r, p, recov)
+	c06RecoverFlow(r, p)
+	c06FailPrimitives(r, p)
 	c06Panic(r, p, recov, reach)
 	c06Assert(r, p, reach)
 	c06ErrVal(r, p, roots)
@@ -65,16 +67,24 @@ func runC06(r *fw.Run, p *fw.Program) {
 	c06WrapGuard(r, p)
 	c06ForceEq(r, p)
 	c06TypedNil(r, p)
+	c06LenIdx(r, p)
+	c06Array(r, p)
+	c06ApiSign(r, p)
+	c06WrapConv(r, p)
+	c06NilRes(r, p)
 	c06ExploreArrays(p)
 	c06Sym(r, p)
 	c06OutType(r, p)
+	c06DebugSSA(p)
+	c06ExploreConstIdx(p)
+	r.GxDumpObligations("C06")
 }
 
 // ---------------------------------------------------------------------------
 // C06.recover
 
 func c06Recover(r *fw.Run, p *fw.Program, recov *types.Interface) {
-	ru := r.Rule("C06.recover", "DecodeFn is only invoked inside recoverfn.Run; Run recovers exactly RecoverableErrorer values with IsRecoverableError()==true and re-panics the rest; the decode error types implement it returning true", 7)
+	ru := r.Rule("C06.recover", "DecodeFn is only invoked inside recoverfn.Run; Run recovers exactly RecoverableErrorer values with IsRecoverableError()==true and re-panics the rest; the decode error types implement it returning true; the recovered value reaches decode() and is consumed exactly when Run reports not-ok; D.Fatalf/IOPanic never return and D.Errorf panics exactly without force", 13)
 	named, idx := decodeFormatField(p, "DecodeFn")
 	runFn := p.Fn("internal/recoverfn.Run")
 	if runFn == nil {
@@ -232,50 +242,50 @@ func c06Recover(r *fw.Run, p *fw.Program, recov *types.Interface) {
 // RecoverableErrorer. key = function|operand type|constant message. One line of reason each.
 var panicExceptions = map[string]string{
 	// --- unreachable by construction (argued from the code; exhaustiveness of the guarding table is checked by the named rule where one exists)
-	"(*format/inet/flowsdecoder.TCPConnection).ReassembledSG|string|unreachable":            "unreachable: reassembly.TCPFlowDirection is a bool; both values are cases (C19.dir checks the switch)",
-	"format/cbor.decodeCBORValue|string|unreachable":                                          "unreachable: typ is a 3-bit read and majorTypeMap has keys 0..7 (C16.cbor checks totality)",
-	"format/msgpack.decodeMsgPackValue|string|unreachable":                                    "unreachable: formatMap ranges partition 0x00..0xff (C16.msgpack checks the partition)",
-	"format/elf.elfReadSectionHeaders|string|unreachable":                                     "unreachable: ec.archBits is assigned only the constants 32 or 64 (other class values are fatal earlier)",
-	"format/matroska.decodeLacingFn|string|unreachable":                                       "unreachable: lacingType is a 2-bit read; all four values are handled before the default",
-	"format/riff.aviParseChunkID|string|unreachable":                                          "unreachable: Atoi of a two-character string already tested by isDigits",
-	"format/xml.fromHTMLToArray|string|unreachable":                                           "unreachable: n is the non-nil parse root; the loop only replaces it by a non-nil child",
-	"(*internal/ctxreadseeker.Reader).loop|string|unreachable":                                "unreachable: fnCh is never closed",
-	"(*pkg/decode.D).Format|string|unreachable":                                               "unreachable: a root value created by newDecoder always holds *Compound",
+	"(*format/inet/flowsdecoder.TCPConnection).ReassembledSG|string|unreachable":                       "unreachable: reassembly.TCPFlowDirection is a bool; both values are cases (C19.dir checks the switch)",
+	"format/cbor.decodeCBORValue|string|unreachable":                                                   "unreachable: typ is a 3-bit read and majorTypeMap has keys 0..7 (C16.cbor checks totality)",
+	"format/msgpack.decodeMsgPackValue|string|unreachable":                                             "unreachable: formatMap ranges partition 0x00..0xff (C16.msgpack checks the partition)",
+	"format/elf.elfReadSectionHeaders|string|unreachable":                                              "unreachable: ec.archBits is assigned only the constants 32 or 64 (other class values are fatal earlier)",
+	"format/matroska.decodeLacingFn|string|unreachable":                                                "unreachable: lacingType is a 2-bit read; all four values are handled before the default",
+	"format/riff.aviParseChunkID|string|unreachable":                                                   "unreachable: Atoi of a two-character string already tested by isDigits",
+	"format/xml.fromHTMLToArray|string|unreachable":                                                    "unreachable: n is the non-nil parse root; the loop only replaces it by a non-nil child",
+	"(*internal/ctxreadseeker.Reader).loop|string|unreachable":                                         "unreachable: fnCh is never closed",
+	"(*pkg/decode.D).Format|string|unreachable":                                                        "unreachable: a root value created by newDecoder always holds *Compound",
 	"(*pkg/decode.Value).postProcess|error|(*github.com/wader/fq/pkg/decode.Value).WalkRootPostOrder:": "unreachable: the walk callback returns nil on every path",
-	"format/luajit.u64tof64|error|encoding/binary.Read:":                                      "unreachable: binary.Read of 8 bytes from an 8-byte buffer into a float64 cannot fail",
-	"format/markdown.decodeMarkdown|error|":                                                   "io.ReadAll over an in-memory bit reader range: read errors are not input-dependent",
+	"format/luajit.u64tof64|error|encoding/binary.Read:":                                               "unreachable: binary.Read of 8 bytes from an 8-byte buffer into a float64 cannot fail",
+	"format/markdown.decodeMarkdown|error|":                                                            "io.ReadAll over an in-memory bit reader range: read errors are not input-dependent",
 	// --- internal API contracts with constant / validated arguments at every call site
-	"(*internal/bitiox.ZeroReadAtSeeker).SeekBits|string|unknown whence":                      "api-misuse: whence is one of the three io.Seek* constants at every call site in fq",
-	"(*pkg/bitio.MultiReader).SeekBits|string|unknown whence":                                 "api-misuse: whence is one of the three io.Seek* constants at every call site in fq",
-	"(*pkg/bitio.SectionReader).SeekBits|string|unknown whence":                               "api-misuse: whence is one of the three io.Seek* constants at every call site in fq",
-	"pkg/bitio.Read64|string|fmt.Sprintf:nBits must be 0-64 (%d)":                             "api-misuse: callers bound nBits (TryUintBits rejects <0 or >64; other callers pass constants or clamp to 64)",
-	"pkg/bitio.Write64|string|fmt.Sprintf:nBits must be 0-64 (%d)":                            "api-misuse: callers pass constants or clamp to 64",
-	"pkg/bitio.ReverseBytes64|string|fmt.Sprintf:unsupported bit length %d":                   "api-misuse: only called after TryUintBits accepted nBits <= 64",
-	"pkg/bitio.BytesFromBitString|string|fmt.Sprintf:invalid bit string %q at index %d %q":    "api-misuse: called with constant bit-string literals only",
-	"(*pkg/checksum.CRC).Sum|string|fmt.Sprintf:unsupported crc bit length %d":                "api-misuse: CRC.Bits is a constant 8/16/32 in every CRC literal in fq",
-	"(*pkg/checksum.CRC).Write|string|fmt.Sprintf:unsupported crc bit length %d":              "api-misuse: CRC.Bits is a constant 8/16/32 in every CRC literal in fq",
-	"pkg/decode.UintAssertBytes|string|invalid endian":                                        "api-misuse: endian is LittleEndian/BigEndian constant or D.Endian which is only assigned those",
-	"pkg/decode.UintAssertBytes|string|invalid bs length":                                     "api-misuse: expected byte strings are literals of length 1/2/4/8 at the call sites",
-	"pkg/decode.decode|string|group is nil, failed to register format?":                       "api-misuse: groups are package-level variables registered at init",
-	"(*pkg/decode.D).FieldGet|string|fmt.Sprintf:%s is not a struct":                          "api-misuse: decoder asks for a field of its own struct; independent of input bytes",
-	"(*pkg/decode.D).FieldMustGet|string|fmt.Sprintf:%s not found in struct %s":               "api-misuse: constant field names the same decoder added earlier on the same path",
-	"(*pkg/decode.Value).TryBitBufScalarFn|string|not a scalar value":                         "api-misuse: applied by decoders to a field they created with the matching scalar kind",
-	"(*pkg/decode.Value).TryUintScalarFn|string|not a scalar value":                           "api-misuse: applied by decoders to a field they created with the matching scalar kind",
+	"(*internal/bitiox.ZeroReadAtSeeker).SeekBits|string|unknown whence":                                                "api-misuse: whence is one of the three io.Seek* constants at every call site in fq",
+	"(*pkg/bitio.MultiReader).SeekBits|string|unknown whence":                                                           "api-misuse: whence is one of the three io.Seek* constants at every call site in fq",
+	"(*pkg/bitio.SectionReader).SeekBits|string|unknown whence":                                                         "api-misuse: whence is one of the three io.Seek* constants at every call site in fq",
+	"pkg/bitio.Read64|string|fmt.Sprintf:nBits must be 0-64 (%d)":                                                       "api-misuse: callers bound nBits (TryUintBits rejects <0 or >64; other callers pass constants or clamp to 64)",
+	"pkg/bitio.Write64|string|fmt.Sprintf:nBits must be 0-64 (%d)":                                                      "api-misuse: callers pass constants or clamp to 64",
+	"pkg/bitio.ReverseBytes64|string|fmt.Sprintf:unsupported bit length %d":                                             "api-misuse: only called after TryUintBits accepted nBits <= 64",
+	"pkg/bitio.BytesFromBitString|string|fmt.Sprintf:invalid bit string %q at index %d %q":                              "api-misuse: called with constant bit-string literals only",
+	"(*pkg/checksum.CRC).Sum|string|fmt.Sprintf:unsupported crc bit length %d":                                          "api-misuse: CRC.Bits is a constant 8/16/32 in every CRC literal in fq",
+	"(*pkg/checksum.CRC).Write|string|fmt.Sprintf:unsupported crc bit length %d":                                        "api-misuse: CRC.Bits is a constant 8/16/32 in every CRC literal in fq",
+	"pkg/decode.UintAssertBytes|string|invalid endian":                                                                  "api-misuse: endian is LittleEndian/BigEndian constant or D.Endian which is only assigned those",
+	"pkg/decode.UintAssertBytes|string|invalid bs length":                                                               "api-misuse: expected byte strings are literals of length 1/2/4/8 at the call sites",
+	"pkg/decode.decode|string|group is nil, failed to register format?":                                                 "api-misuse: groups are package-level variables registered at init",
+	"(*pkg/decode.D).FieldGet|string|fmt.Sprintf:%s is not a struct":                                                    "api-misuse: decoder asks for a field of its own struct; independent of input bytes",
+	"(*pkg/decode.D).FieldMustGet|string|fmt.Sprintf:%s not found in struct %s":                                         "api-misuse: constant field names the same decoder added earlier on the same path",
+	"(*pkg/decode.Value).TryBitBufScalarFn|string|not a scalar value":                                                   "api-misuse: applied by decoders to a field they created with the matching scalar kind",
+	"(*pkg/decode.Value).TryUintScalarFn|string|not a scalar value":                                                     "api-misuse: applied by decoders to a field they created with the matching scalar kind",
 	"internal/mathx.NewFloat80FromBytes|error|fmt.Errorf:invalid length of float80 representation, expected 10, got %d": "api-misuse: tryFEndian passes exactly 80 bits (10 bytes)",
-	"format/tls.decodeTLS$3|string|fmt.Sprintf:tls PostFn in not *tlsCtx %+#v":                "internal contract: the TCP stream decoder passes the peer's own out value (*tlsCtx)",
-	"format/tls.decodeTLSPostKeyExchange|string|fmt.Sprintf:unknown ke type %d":               "internal contract: key-exchange contexts are created only for the two handled handshake types",
-	"format/tls.decodeTLSPostKeyExchange|error|(*github.com/wader/fq/pkg/decode.Value).Remove:": "internal contract: the removed value was added to this struct by the same decoder (C03.byname keeps ByName in sync)",
-	"(*format/inet/flowsdecoder.Decoder).packet|string|not a PacketBuilder":                   "third-party contract: gopacket.NewPacket always returns a PacketBuilder",
-	"format/tls/rezlib.NewReader|string|zlib reader not a Resetter":                           "stdlib contract: compress/zlib readers implement zlib.Resetter",
-	"(*format/tls/rezlib.Reader).Read|string|fmt.Sprintf:zlib reader could not reset %s":      "needs a user-supplied matching TLS keylog to be reached (decrypted stream); see DESIGN C06 residual",
-	"(*format/tls/tlsdecrypt.halfConn).decrypt|string|unknown cipher type":                    "internal contract: cipher values come from the cipherSuite table constructors (Stream/aead/cbcMode)",
-	"(*format/tls/tlsdecrypt.halfConn).explicitNonceLen|string|unknown cipher type":           "internal contract: cipher values come from the cipherSuite table constructors (Stream/aead/cbcMode)",
-	"(*format/tls/tlsdecrypt.halfConn).incSeq|string|TLS: sequence number wraparound":         "needs 2^64 records in one connection",
-	"format/tls/tlsdecrypt.aeadAESGCM|string|tls: internal error: wrong nonce length":         "internal contract: nonce length fixed by the cipherSuite table",
-	"format/tls/tlsdecrypt.aeadAESGCM|error|":                                                 "needs a user-supplied TLS keylog; key length fixed by the cipherSuite table",
-	"format/tls/tlsdecrypt.aeadChaCha20Poly1305|string|tls: internal error: wrong nonce length": "internal contract: nonce length fixed by the cipherSuite table",
-	"format/tls/tlsdecrypt.aeadChaCha20Poly1305|error|":                                       "needs a user-supplied TLS keylog; key length fixed by the cipherSuite table",
-	"format/ogg.decodeOgg$1|string|page decode is not a oggPageOut":                           "format out-value contract (ogg_page always returns format.Ogg_Page_Out; C06.outtype)",
+	"format/tls.decodeTLS$3|string|fmt.Sprintf:tls PostFn in not *tlsCtx %+#v":                                          "internal contract: the TCP stream decoder passes the peer's own out value (*tlsCtx)",
+	"format/tls.decodeTLSPostKeyExchange|string|fmt.Sprintf:unknown ke type %d":                                         "internal contract: key-exchange contexts are created only for the two handled handshake types",
+	"format/tls.decodeTLSPostKeyExchange|error|(*github.com/wader/fq/pkg/decode.Value).Remove:":                         "internal contract: the removed value was added to this struct by the same decoder (C03.byname keeps ByName in sync)",
+	"(*format/inet/flowsdecoder.Decoder).packet|string|not a PacketBuilder":                                             "third-party contract: gopacket.NewPacket always returns a PacketBuilder",
+	"format/tls/rezlib.NewReader|string|zlib reader not a Resetter":                                                     "stdlib contract: compress/zlib readers implement zlib.Resetter",
+	"(*format/tls/rezlib.Reader).Read|string|fmt.Sprintf:zlib reader could not reset %s":                                "needs a user-supplied matching TLS keylog to be reached (decrypted stream); see DESIGN C06 residual",
+	"(*format/tls/tlsdecrypt.halfConn).decrypt|string|unknown cipher type":                                              "internal contract: cipher values come from the cipherSuite table constructors (Stream/aead/cbcMode)",
+	"(*format/tls/tlsdecrypt.halfConn).explicitNonceLen|string|unknown cipher type":                                     "internal contract: cipher values come from the cipherSuite table constructors (Stream/aead/cbcMode)",
+	"(*format/tls/tlsdecrypt.halfConn).incSeq|string|TLS: sequence number wraparound":                                   "needs 2^64 records in one connection",
+	"format/tls/tlsdecrypt.aeadAESGCM|string|tls: internal error: wrong nonce length":                                   "internal contract: nonce length fixed by the cipherSuite table",
+	"format/tls/tlsdecrypt.aeadAESGCM|error|":                                                                           "needs a user-supplied TLS keylog; key length fixed by the cipherSuite table",
+	"format/tls/tlsdecrypt.aeadChaCha20Poly1305|string|tls: internal error: wrong nonce length":                         "internal contract: nonce length fixed by the cipherSuite table",
+	"format/tls/tlsdecrypt.aeadChaCha20Poly1305|error|":                                                                 "needs a user-supplied TLS keylog; key length fixed by the cipherSuite table",
+	"format/ogg.decodeOgg$1|string|page decode is not a oggPageOut":                                                     "format out-value contract (ogg_page always returns format.Ogg_Page_Out; C06.outtype)",
 }
 
 func panicKey(p *fw.Program, pn *ssa.Panic) (string, types.Type) {
